@@ -3,13 +3,19 @@
  *   getrandom / getentropy -> bytes from a splitmix64 stream seeded by ACBSIM_SEED
  *                            (std's RandomState keys, hence every HashMap/HashSet order);
  *   clock_gettime(CLOCK_REALTIME), gettimeofday, time -> ACBSIM_NOW (unix seconds);
- *   getpid -> ACBSIM_PID.
+ *   getpid -> ACBSIM_PID;
+ *   memory layout -> the harness starts the process with address-space randomisation off
+ *                    (personality ADDR_NO_RANDOMIZE), and with ACBSIM_LAYOUT set a constructor
+ *                    here leaks a seed-dependent amount of heap and mapped pages before main,
+ *                    so heap and mmap addresses are a function of that seed (stack addresses
+ *                    follow the length of the environment, which the harness also varies).
  * Anything else goes to the real libc. No effect unless ACBSIM_SEED is set. */
 #define _GNU_SOURCE
 #include <dlfcn.h>
 #include <stdint.h>
 #include <stdlib.h>
 #include <string.h>
+#include <sys/mman.h>
 #include <sys/types.h>
 #include <sys/time.h>
 #include <time.h>
@@ -108,4 +114,20 @@ pid_t getpid(void) {
     pid_t (*real)(void) = dlsym(RTLD_NEXT, "getpid");
     if (active && pid_v) return (pid_t)pid_v;
     return real();
+}
+
+__attribute__((constructor)) static void layout(void) {
+    const char *l = getenv("ACBSIM_LAYOUT");
+    if (!l) return;
+    uint64_t x = strtoull(l, 0, 10) * 0x9E3779B97F4A7C15ULL + 0x1234567ULL; /* own stream: getrandom's is untouched */
+    x ^= x >> 29;
+    unsigned blocks = (unsigned)(x % 61), pages = (unsigned)((x >> 8) % 13);
+    for (unsigned i = 0; i < blocks; i++) {
+        volatile char *p = malloc(16 * (1 + ((x >> (i % 40)) & 15)));
+        if (p) p[0] = 1; /* leaked on purpose */
+    }
+    if (pages) {
+        void *m = mmap(0, 4096 * (size_t)pages, PROT_READ | PROT_WRITE, MAP_PRIVATE | MAP_ANONYMOUS, -1, 0);
+        (void)m; /* leaked on purpose */
+    }
 }
